@@ -384,10 +384,10 @@ def immutability(ctx):
     # no mutator is ever applied to an op tuple (tuples are immutable; a list would not be)
     w = ctx.shared.get('writer') or model(ctx)[1]
     ctx.ob(bool(w.tuple_elts), w.unit, 'steps are appended by tuple concatenation (a new tuple per child)')
-    if n_ops < 5 or n_pt < 2:
-        raise AnalysisError('C18.4: found %d __ops__ and %d path_t stores (floors 5 / 2)' % (n_ops, n_pt))
+    if n_ops < 5 or n_pt < 1:
+        raise AnalysisError('C18.4: found %d __ops__ and %d path_t stores (floors 5 / 1)' % (n_ops, n_pt))
     # TType has no __setattr__/__delattr__ loophole beyond slots; T attributes starting with __ are reserved
-    ctx.floor(9)
+    ctx.floor(8)
 
 
 def _threshold(op, lhs, rhs):
@@ -542,6 +542,30 @@ def sequence_views(ctx):
     ok = len(r) == 1 and isinstance(r[0].value, ast.Call) and is_name(r[0].value.func, 'tuple') and isinstance(r[0].value.args[0], ast.Call) \
         and is_name(r[0].value.args[0].func, 'zip')
     ctx.ob(ok, iu, 'items() pairs each op with its argument, as a tuple')
+    # values() / items() are projections of the same step sequence __len__ and __getitem__ expose:
+    # one entry per step, in position -- no step is filtered out or rewritten
+    from ..util import expand_locals
+    for q, shapes in (('core.Path.values', ('self.path_t.__ops__[2::2]', 'tuple(self.path_t.__ops__[2::2])')),
+                      ('core.Path.items', ('tuple(zip(self.path_t.__ops__[1::2], self.path_t.__ops__[2::2]))',))):
+        vu = ctx.unit(q)
+        vcfg = ctx.cfg(vu)
+        rr = [n for n in vu.own_nodes() if isinstance(n, ast.Return)]
+        class _IdComp(ast.NodeTransformer):
+            # [x for x in S] / (x for x in S), unfiltered: S itself as far as tuple() is concerned
+            def visit_Call(self, c):
+                self.generic_visit(c)
+                if is_name(c.func, 'tuple') and len(c.args) == 1 and isinstance(c.args[0], (ast.ListComp, ast.GeneratorExp)):
+                    g = c.args[0]
+                    if len(g.generators) == 1 and not g.generators[0].ifs and is_name(g.generators[0].target) \
+                            and is_name(g.elt, g.generators[0].target.id):
+                        c.args[0] = g.generators[0].iter
+                return c
+        shown = [norm(_IdComp().visit(expand_locals(vcfg, vcfg.node_of(n), n.value))) if n.value is not None else 'None' for n in rr]
+        shapes = tuple(s_.replace('self', vu.params[0]) for s_ in shapes)
+        ok = bool(rr) and all(s_ in shapes for s_ in shown)
+        ctx.ob(ok, vu, '%s() has one entry per step, in step order: %s' % (vu.name, shown),
+               '' if ok else 'not the plain stride-2 projection of the op tuple (%s): it no longer lines up with len() / indexing'
+               % ' / '.join(shapes))
     fu = ctx.unit('core.Path.from_t')
     st = [n for n in fu.own_nodes() if isinstance(n, ast.Assign) and isinstance(n.targets[0], ast.Attribute) and n.targets[0].attr == '__ops__']
     fcfg = ctx.cfg(fu)
@@ -567,32 +591,60 @@ def path_flattening(ctx):
     parts = u.vararg
     lp = [n for n in u.own_nodes() if isinstance(n, ast.For)]
     ctx.require(len(lp) == 1, 'Path.__init__: part loop not found')
-    bi = match(lp[0].iter, '%s[$off:]' % parts)
-    ctx.ob(bi is not None, u, 'all parts after an optional leading T are consumed in order: %s' % norm(lp[0].iter))
-    offv = bi['off'] if bi else None
-    # leading T: base and offset -- decided on the values reaching the part loop on each edge of
-    # the `isinstance(parts[0], TType)` test (if/else, default-then-override, conditional expression ...)
-    fins = [n for n in u.node.body if isinstance(n, ast.Assign) and matches(n, 'self.path_t = $pt')]
-    ptv = match(fins[-1], 'self.path_t = $pt')['pt'] if fins else None
-    lpn = cfg.node_of(lp[0])
-    tests = [(n, polarity(n.ast, 'isinstance(%s[0], TType)' % parts)) for n in cfg.nodes if n.kind == 'test']
-    tests = [(n, e) for n, e in tests if e and lp[0] not in [a for a in ancestors(getattr(n, 'stmt', None) or n.ast)]]
-    ok = ptv is not None and offv is not None and len(tests) == 1
-    if ok:
-        t, lead = tests[0]
-        other = 'false' if lead == 'true' else 'true'
-        ok = sorted(norm(v) for v in values_on(cfg, lpn, ptv, t, lead, entry_only=True)) == ['%s[0]' % parts] \
-            and sorted(norm(v) for v in values_on(cfg, lpn, offv, t, lead, entry_only=True)) == ['1'] \
-            and sorted(norm(v) for v in values_on(cfg, lpn, ptv, t, other, entry_only=True)) == ['T'] \
-            and sorted(norm(v) for v in values_on(cfg, lpn, offv, t, other, entry_only=True)) == ['0']
-    elif ptv is not None and offv is not None and not tests:
-        # conditional expressions (the normal form of a two-way choice)
-        d1 = [v for _, v in cfg.reaching_defs(lpn, ptv, split=False)]
-        d2 = [v for _, v in cfg.reaching_defs(lpn, offv, split=False)]
-        cond = 'isinstance(%s[0], TType)' % parts
-        ok = len(d1) == 1 and len(d2) == 1 and matches(d1[0], '%s[0] if %s else T' % (parts, cond)) \
-            and matches(d2[0], '1 if %s else 0' % cond)
-    ctx.ob(ok, u, 'a leading T expression is the base, otherwise T itself')
+    # base and parts consumed, case by case: no parts / a leading T expression / any other first
+    # part.  The statements before the loop are followed with the tests on the argument tuple
+    # decided (if/else, default-then-override, offset variable, early return ... are all the same)
+    from ..util import case_paths
+    fins = [n for n in u.own_nodes() if isinstance(n, ast.Assign) and matches(n, 'self.path_t = $pt') and n not in list(ast.walk(lp[0]))]
+    named = [n for n in fins if is_name(n.value)]
+    ptv = named[-1].value.id if named else None
+    ctx.require(ptv is not None, 'Path.__init__: running T expression not found')
+    LEAD = 'isinstance(%s[0], TType)' % parts
+
+    def decider(case):
+        def decide(t):
+            if isinstance(t, ast.BoolOp):
+                vals = [decide(v) for v in t.values]
+                if isinstance(t.op, ast.And):
+                    return False if False in vals else (True if all(v is True for v in vals) else None)
+                return True if True in vals else (False if all(v is False for v in vals) else None)
+            if isinstance(t, ast.UnaryOp) and isinstance(t.op, ast.Not):
+                v = decide(t.operand)
+                return None if v is None else not v
+            txt = norm(t)
+            if txt in (parts, 'len(%s)' % parts, 'len(%s) > 0' % parts, 'len(%s) >= 1' % parts):
+                return case != 'none'
+            if txt == LEAD:
+                return None if case == 'none' else case == 'lead'
+            return None
+        return decide
+    want = {'lead': ('%s[0]' % parts, ('%s[1:]' % parts,)),
+            'other': ('T', (parts, '%s[0:]' % parts, '%s[:]' % parts)),
+            'none': ('T', (parts, '%s[0:]' % parts, '%s[1:]' % parts, '%s[:]' % parts))}
+    verdict = {}
+    for case in ('none', 'lead', 'other'):
+        outs, subst = case_paths(u.node.body, decider(case), stop=lambda st: st is lp[0])
+        good = bool(outs)
+        shown = []
+        for kind, e, st, env in outs:
+            if kind == 'stop':
+                base = norm(subst(ast.Name(id=ptv, ctx=ast.Load()), env))
+                it = norm(subst(lp[0].iter, env))
+                shown.append('%s + %s' % (base, it))
+                good = good and base == want[case][0] and it in want[case][1]
+            elif kind in ('return', 'fall') and case == 'none':
+                stored = env.get('%s.path_t' % u.params[0])
+                shown.append('stored %s' % (norm(stored) if stored is not None else None))
+                good = good and stored is not None and norm(stored) == 'T'
+            elif kind == 'raise' and case == 'none' and False:
+                pass
+            else:
+                shown.append(kind)
+                good = False
+        verdict[case] = (good, shown)
+    ctx.ob(verdict['lead'][0] and verdict['other'][0], u,
+           'all parts after an optional leading T are consumed in order: %s / %s' % (verdict['lead'][1], verdict['other'][1]))
+    ctx.ob(verdict['lead'][0] and verdict['other'][0], u, 'a leading T expression is the base, otherwise T itself')
     calls = [c for c in calls_in(u) if callee_qual(p, u, c) == 'core._t_child']
     ctx.ob(len(calls) == 2, u, 'two ways to extend: splice a recorded step, or add a path step')
     sp = [c for c in calls if isinstance(c.args[1], ast.Subscript)]
@@ -612,9 +664,7 @@ def path_flattening(ctx):
     ctx.ob(ok, u, 'every step of a spliced expression is copied: %s' % [norm(x.test) for x in wl])
     fin = u.node.body[-1]
     ctx.ob(ptv is not None and matches(fin, 'self.path_t = %s' % ptv), u, 'the result is stored once, at the end')
-    e = next((n for n in u.node.body if isinstance(n, ast.If)), None)
-    ok = isinstance(e, ast.If) and norm(e.test) == 'not %s' % parts and norm(e.body[0]) == 'self.path_t = T'
-    ctx.ob(ok, u, 'Path() is T')
+    ctx.ob(verdict['none'][0], u, 'Path() is T: %s' % verdict['none'][1])
     tu = ctx.unit('core._t_child')
     news = [c for c in calls_in(tu) if callee_qual(p, tu, c) == 'core.TType']
     r = [n for n in tu.node.body if isinstance(n, ast.Return)]
